@@ -30,12 +30,18 @@ type HeaderValueExtractStrategy struct {
 
 func (es HeaderValueExtractStrategy) GetAuthData(s heimdall.Context) (string, error) {
 	if val := s.Request().Header(es.Name); len(val) != 0 {
-		if len(es.Scheme) != 0 && !strings.HasPrefix(val, es.Scheme+" ") {
+		if len(es.Scheme) == 0 {
+			return strings.TrimSpace(val), nil
+		}
+
+		// the authentication scheme is case-insensitive (RFC 9110, section 11.1)
+		scheme, credentials, found := strings.Cut(val, " ")
+		if !found || !strings.EqualFold(scheme, es.Scheme) {
 			return "", errorchain.NewWithMessagef(heimdall.ErrArgument,
 				"'%s' header present, but without required '%s' scheme", es.Name, es.Scheme)
 		}
 
-		return strings.TrimSpace(strings.TrimPrefix(val, es.Scheme)), nil
+		return strings.TrimSpace(credentials), nil
 	}
 
 	return "", errorchain.NewWithMessagef(heimdall.ErrArgument, "no '%s' header present", es.Name)
